@@ -8,11 +8,35 @@ import (
 	"github.com/ipfs/boxo/internal/verifrt"
 	blocks "github.com/ipfs/go-block-format"
 	cid "github.com/ipfs/go-cid"
+	mh "github.com/multiformats/go-multihash"
 )
 
-// Pool: slots 0..n-1 are the requested blocks (valid sha2-256 CIDs, raw / dag-pb alternating), slot n is a valid
-// block nobody asked for, slot n+1 is a CID the default allowlist rejects (shake-128). Block i carries the bytes
-// {i, 0xAA}; any other payload under that CID is a block whose bytes do not hash to its CID (content addressing).
+// zzMhSum is the engine-side stand-in for multihash.Sum (crypto is opaque to the engine). The block service never
+// looks inside a digest, it only compares CIDs, so the stand-in is a concrete injective function of the data
+// (length byte, data, padding) — collision-free by construction on the payloads used here (<= 30 bytes).
+// Natively the real multihash.Sum runs; no observation depends on digest values.
+func zzMhSum(data []byte, code uint64, length int) (mh.Multihash, error) {
+	if code == mh.IDENTITY {
+		return mh.Encode(data, mh.IDENTITY)
+	}
+	if length < 0 {
+		length = 32
+	}
+	if len(data) > 30 || length < 32 {
+		panic("zzMhSum: payload outside the modelled domain")
+	}
+	d := make([]byte, length)
+	d[0] = byte(len(data))
+	copy(d[1:], data)
+	for i := 1 + len(data); i < length; i++ {
+		d[i] = 0x5c
+	}
+	return mh.Encode(d, code)
+}
+
+// Pool: slots 0..n-1 are the requested blocks (sha2-256 CIDs of their bytes, raw / dag-pb alternating), slot n is a
+// valid block nobody asked for, slot n+1 is a CID the default allowlist rejects (shake-128). Block i carries the
+// bytes {i, 0xAA}; any other payload under that CID is a block whose bytes do not hash to its CID.
 func zzC05World(n int) *zzWorld {
 	w := &zzWorld{}
 	for i := 0; i <= n; i++ {
@@ -20,11 +44,15 @@ func zzC05World(n int) *zzWorld {
 		if i%2 == 1 {
 			codec = cid.DagProtobuf
 		}
-		w.pool = append(w.pool, &zzSlot{c: zzMkCid(codec, 0x12, 32, byte(16*i)), valid: true})
+		data := []byte{byte(i), 0xAA}
+		c, err := cid.Prefix{Version: 1, Codec: codec, MhType: mh.SHA2_256, MhLength: 32}.Sum(data)
+		if err != nil {
+			panic(err)
+		}
+		w.pool = append(w.pool, &zzSlot{c: c, data: data, valid: true})
 	}
-	w.pool = append(w.pool, &zzSlot{c: zzMkCid(cid.Raw, 0x18, 32, 0xE0), valid: false})
-	for i, s := range w.pool {
-		s.data = []byte{byte(i), 0xAA}
+	w.pool = append(w.pool, &zzSlot{c: zzMkCid(cid.Raw, 0x18, 32, 0xE0), data: []byte{byte(n + 1), 0xAA}, valid: false})
+	for _, s := range w.pool {
 		s.local = verifrt.NondetBool("local")
 	}
 	return w
@@ -213,3 +241,7 @@ func HarnessC05GetBlocksHonest() { zzC05GetBlocks(true) }
 // HarnessC05GetBlocksAdversarial: GetBlocks against an exchange that may deliver unrequested, already local or
 // rejected blocks and bytes that do not belong to the CID.
 func HarnessC05GetBlocksAdversarial() { zzC05GetBlocks(false) }
+
+// HarnessC05GetBlocksHonestSched: the same harness under schedule exploration (one pre-emption; select picks any
+// ready case), small bounds.
+func HarnessC05GetBlocksHonestSched() { zzC05GetBlocks(true) }
